@@ -456,6 +456,21 @@ func (r *Resolver) resolve(ctx context.Context, rs *resolveState) (*dns.Msg, err
 	}
 
 	resp = r.setTags(rs.req, resp)
+
+	// A server is believed only about the zone it was asked for (RFC 2181
+	// §5.4.1, RFC 5452 §6). An answer section may legitimately carry more
+	// than the question's owner — an in-zone CNAME chain, a DNAME and its
+	// synthesised CNAME — but a record owned outside that zone is something
+	// the server volunteered about somebody else's names: typically the
+	// address of an out-of-zone CNAME target. Nothing downstream looks at the
+	// owner again (the cache's CNAME chase stops at the first record of the
+	// question's type, NS address lookups collect every A/AAAA), so drop it
+	// here, before the reply is classified, validated or relayed. The alias
+	// itself stays and its target is resolved from the root like any name.
+	if len(resp.Answer) > 0 && rs.servers.Zone != rootzone {
+		resp.Answer = dnsutil.FilterRRsToZone(resp.Answer, rs.servers.Zone)
+	}
+
 	serverFailureResponse := false
 	if resp.Rcode != dns.RcodeSuccess {
 		responseType, _ := dnsutil.ClassifyResponse(resp, time.Now())
